@@ -357,7 +357,7 @@ def check_verbose(d, tag, a, v, m, inp, cxx):
         import re
         want = [x for x in bytes.fromhex(inp["recognized_hex"]).decode("latin-1").split("\x1f") if x != ""]
         # a display name may contain a line break (string term ";\\n"): take everything between 'PARSE: Recognized ' and the next '[l:c] ' prefix
-        got = [g.rstrip(" \n") if g.rstrip(" \n") else g for g in re.findall(r"\] PARSE: Recognized (.*?) ?\n(?=\[\d+:\d+\] |$)", vtext, flags=re.S)]
+        got = [g for g in re.findall(r"\] PARSE: Recognized (.*?) ?\n(?=\[\d+:\d+\] |$)", vtext, flags=re.S)]
         # at the end of the input the parser asks for the current term again after every reduction: '<eof>' may be reported several times in a row
         got = [x for i, x in enumerate(got) if not (x == "<eof>" and i > 0 and got[i - 1] == "<eof>")]
         if got != want:
